@@ -1242,7 +1242,7 @@ def run(ctx):
         # second tie: reshaper._derive_shapes, shampoo._blocks_metadata, merge_small_dims and the graft mask as translated from
         # today's source are proved equal to the model's functions (namespace GenProps.C15 of Props/Gen.lean)
         kit.gen_stage(ctx)
-        ctx.lean_stage(extra_props=("Gen",))
+        ctx.lean_stage(extra_props=("Gen", "Compose"))
     const_stage(ctx)
     ctx.cov["rule"] = RULE
     ctx.assumptions += [
